@@ -79,6 +79,16 @@ def analyse_class(chk, ctx, ci, axioms=None):
         chk.ob('C01.L', q, False, 'frame.marshal never returns for this '
                'class', site=site)
         return
+    oty = T.typeof(e['term'])
+    if oty is not None and oty != {'bytes'}:
+        # the decode side is analysed for bytes input (its dispatch tables
+        # are keyed by slices of the buffer, which must be hashable)
+        chk.ob('C01.E', q + ' marshal result type', False,
+               'frame.marshal returns %s, not bytes: feeding it to '
+               'frame.unmarshal is outside what the decoder handles (slices '
+               'of the buffer are used as dictionary keys)' % sorted(oty),
+               site=site)
+        return
     env = L.parse_envelope(e['term'])
     if env is None:
         chk.undecide('C01.E', q, 'frame.marshal output is not header ++ '
